@@ -49,7 +49,7 @@ BASE = dict(
     tm=False, elitism=True, mutate_elite=True, tsize=2, mut="mixed", ckpt=None, overwrite=False,
     episode_steps=10, eval_steps=3, eval_loop=1, target=None, seed=0, strict=True, fault=None,
     ep_len=7, via="build", timeout=120, ls_spread=0,
-    budgets=None, start_steps=0, start_spread=0, start_hist=False, bs_spread=0, lr_spread=0.0,
+    budgets=None, start_steps=0, start_spread=0, start_hist=False, bs_spread=0, lr_spread=0.0, ep_mode="stagger", squash=False,
 )
 
 LOOP_ALGOS = {
@@ -326,30 +326,47 @@ def _build_population(cfg, E):
                 o["lr"] = 1e-4 * f
         return o
 
+    net_config = copy.deepcopy(agents.default_net_config(algo, "vector" if cfg["loop"] == "bandit" else fam))
+    # squash_output: PPO only.  IPPO builds its ValueNetwork critics from the same net_config dict and
+    # ValueNetwork rejects the key (TypeError), and IPPO.get_action calls entropy.cpu() on the None entropy of a
+    # squashed distribution: the library has no way to run IPPO with squash_output
+    if cfg["squash"] and algo == "PPO" and kind == "box":
+        net_config["squash_output"] = True
     if cfg["loop"] == "bandit":
         from gymnasium import spaces
         import numpy as np
         benv = E.ScriptedBanditEnv(3, 2)
-        for i in range(cfg["pop"]):
-            agents.seed_all(cfg["seed"] + i)
-            pop.append(agents.algo_class(algo)(
-                spaces.Box(0.0, 1.0, benv.context_dim, np.float32), spaces.Discrete(benv.arms), index=i,
-                hp_config=agents.default_hp_config(algo), net_config=agents.default_net_config(algo, "vector"),
-                device="cpu", **hetero(i)))
-        return pop, kind
-    if cfg["via"] == "create_population" and not (cfg["ls_spread"] or cfg["bs_spread"] or cfg["lr_spread"]) and algo in ("DQN", "RainbowDQN", "DDPG", "TD3", "CQN", "PPO"):
+        o_space, a_space = spaces.Box(0.0, 1.0, benv.context_dim, np.float32), spaces.Discrete(benv.arms)
+    elif agents.is_multi_agent(algo):
+        o_space, a_space, _ids = agents.spaces_for(algo, fam, kind)
+    else:
+        o_space, a_space = agents.obs_space(fam), agents.act_space(kind)
+    if cfg["via"] == "create_population":
+        # the population exactly as the library's own factory hands it out for this environment
         from agilerl.utils.utils import create_population
         init_hp = {"BATCH_SIZE": cfg["batch_size"], "LEARN_STEP": cfg["learn_step"], "NUM_ATOMS": 5,
-                   "V_MIN": -2.0, "V_MAX": 2.0, "UPDATE_EPOCHS": 2}
+                   "V_MIN": -2.0, "V_MAX": 2.0, "UPDATE_EPOCHS": 2, "AGENT_IDS": list(agents.AGENT_IDS),
+                   "LR": 1e-4, "GAMMA": 0.99, "GAE_LAMBDA": 0.95, "ACTION_STD_INIT": 0.6, "CLIP_COEF": 0.2,
+                   "ENT_COEF": 0.01, "VF_COEF": 0.5, "MAX_GRAD_NORM": 0.5, "TARGET_KL": None}
         agents.seed_all(cfg["seed"])
         pop = create_population(
-            "Rainbow DQN" if algo == "RainbowDQN" else algo, agents.obs_space(fam), agents.act_space(kind),
-            copy.deepcopy(agents.default_net_config(algo, fam)), init_hp, hp_config=agents.default_hp_config(algo),
-            population_size=cfg["pop"], num_envs=ne, device="cpu")
-        return pop, kind
-    for i in range(cfg["pop"]):
-        pop.append(agents.build(algo, fam, seed=cfg["seed"] + i, index=i, action_kind=kind,
-                                hp_config=agents.default_hp_config(algo), **hetero(i)))
+            "Rainbow DQN" if algo == "RainbowDQN" else algo, o_space, a_space, net_config, init_hp,
+            hp_config=agents.default_hp_config(algo), population_size=cfg["pop"], num_envs=ne, device="cpu")
+        if len(pop) != cfg["pop"]:
+            raise RuntimeError(f"create_population({algo!r}) returned {len(pop)} agents for population_size={cfg['pop']}")
+        for i, a in enumerate(pop):               # members that an HPO mutation has moved apart
+            a.learn_step = cfg["learn_step"] + i * cfg["ls_spread"]
+            a.batch_size = cfg["batch_size"] + i * cfg["bs_spread"]
+    elif cfg["loop"] == "bandit":
+        for i in range(cfg["pop"]):
+            agents.seed_all(cfg["seed"] + i)
+            pop.append(agents.algo_class(algo)(o_space, a_space, index=i, hp_config=agents.default_hp_config(algo),
+                                               net_config=copy.deepcopy(net_config), device="cpu", **hetero(i)))
+    else:
+        for i in range(cfg["pop"]):
+            pop.append(agents.build(algo, fam, seed=cfg["seed"] + i, index=i, action_kind=kind,
+                                    hp_config=agents.default_hp_config(algo), net_config=copy.deepcopy(net_config),
+                                    **hetero(i)))
     return pop, kind
 
 
@@ -401,7 +418,7 @@ def execute(cfg: dict) -> dict:
         if loop == "off":
             from agilerl.training import train_off_policy as tm_
             fn = tm_.train_off_policy
-            env = E.make_single_env(fam, kind, cfg["num_envs"], cfg["ep_len"])
+            env = E.make_single_env(fam, kind, cfg["num_envs"], cfg["ep_len"], cfg["ep_mode"])
             per = cfg["mem"] in ("per", "per_nstep")
             memory = PrioritizedReplayBuffer(cfg["cap"], alpha=0.6) if per else ReplayBuffer(cfg["cap"])
             nsm = MultiStepReplayBuffer(cfg["cap"], n_step=cfg["nstep"], gamma=0.99) if cfg["mem"] in ("nstep", "per_nstep") else None
@@ -410,12 +427,12 @@ def execute(cfg: dict) -> dict:
         elif loop == "on":
             from agilerl.training import train_on_policy as tm_
             fn = tm_.train_on_policy
-            env = E.make_single_env(fam, kind, cfg["num_envs"], cfg["ep_len"])
+            env = E.make_single_env(fam, kind, cfg["num_envs"], cfg["ep_len"], cfg["ep_mode"])
             args = (env, "scripted", algo, pop)
         elif loop == "offline":
             from agilerl.training import train_offline as tm_
             fn = tm_.train_offline
-            env = E.make_single_env(fam, kind, cfg["num_envs"], cfg["ep_len"])
+            env = E.make_single_env(fam, kind, cfg["num_envs"], cfg["ep_len"], cfg["ep_mode"])
             memory = ReplayBuffer(cfg["cap"])
             args = (env, "scripted", E.offline_dataset(fam, kind), algo, pop, memory)
         elif loop == "bandit":
@@ -428,7 +445,7 @@ def execute(cfg: dict) -> dict:
         elif loop == "maoff":
             from agilerl.training import train_multi_agent_off_policy as tm_
             fn = tm_.train_multi_agent_off_policy
-            env = E.make_multi_env(fam, kind, cfg["num_envs"], cfg["ep_len"])
+            env = E.make_multi_env(fam, kind, cfg["num_envs"], cfg["ep_len"], cfg["ep_mode"])
             memory = MultiAgentReplayBuffer(cfg["cap"], field_names=["state", "action", "reward", "next_state", "done"],
                                             agent_ids=list(E.AGENT_IDS))
             args = (env, "scripted", algo, pop, memory)
@@ -436,7 +453,7 @@ def execute(cfg: dict) -> dict:
         elif loop == "maon":
             from agilerl.training import train_multi_agent_on_policy as tm_
             fn = tm_.train_multi_agent_on_policy
-            env = E.make_multi_env(fam, kind, cfg["num_envs"], cfg["ep_len"])
+            env = E.make_multi_env(fam, kind, cfg["num_envs"], cfg["ep_len"], cfg["ep_mode"])
             args = (env, "scripted", algo, pop)
         else:
             raise InfraError(f"unknown loop {loop}")
@@ -934,6 +951,31 @@ def gen_cases(rng, tier: str) -> list[dict]:
         spread = rng.choice([0, d, 2 * d])
         add(loop=lp, start_steps=s0, start_spread=spread, start_hist=rng.random() < 0.5,
             max_steps=rng.choice([s0 + 2 * d, s0 + spread, s0 + spread + 2 * d]), tm=rng.random() < 0.4, mut="none", **kw)
+    # --- populations as the library builds them: agilerl.utils.utils.create_population for every algorithm string
+    #     it supports, for the vector environment they are then trained on (num_envs 2..4), with episodes ending in
+    #     every sub-environment index - also ONLY in a non-zero one - and at staggered times
+    modes = ["last-only", "reverse", "middle-only", "stagger", "first-only"]
+    for k, (lp, algo) in enumerate([("off", "TD3"), ("off", "DDPG"), ("maoff", "MATD3"), ("maoff", "MADDPG"),
+                                    ("off", "DQN"), ("off", "RainbowDQN"), ("off", "CQN"), ("on", "PPO"),
+                                    ("maon", "IPPO"), ("offline", "CQN"), ("bandit", "NeuralUCB"), ("bandit", "NeuralTS")]):
+        kw = dict(loop=lp, algo=algo, via="create_population", num_envs=rng.choice([2, 3, 4]),
+                  ep_mode=modes[k % 4] if k < 4 else rng.choice(modes), ep_len=rng.choice([2, 3]),   # episodes end within every rollout
+                  evo_steps=rng.choice([20, 24]), max_steps=40,
+                  learn_step=rng.choice([1, 2, 4]) if lp not in ("on", "maon") else 4, ls_spread=rng.choice([0, 1]),
+                  bs_spread=rng.choice([0, 2]), tm=rng.random() < 0.4, mutate_elite=rng.random() < 0.5)
+        if lp in ("maoff", "maon"):
+            kw["kind"] = "box"
+        if lp == "offline":
+            kw.update(evo_steps=5, max_steps=12)
+        if lp == "bandit":
+            kw.update(episode_steps=6, evo_steps=12, max_steps=18, eval_steps=3)
+        add(**kw)
+    # --- squashed continuous policies in the on-policy loop (StochasticActor.scale_action on numpy actions);
+    #     IPPO cannot be run with squash_output at all (see _build_population)
+    add(loop="on", algo="PPO", kind="box", squash=True, num_envs=rng.choice([2, 3]), learn_step=rng.choice([3, 4, 8]),
+        ep_mode=rng.choice(modes), ep_len=3, tm=rng.random() < 0.5, via=rng.choice(["build", "create_population"]))
+    add(loop="on", algo="PPO", kind="box", squash=True, num_envs=1, learn_step=rng.choice([2, 5]), evo_steps=16, max_steps=40,
+        family=rng.choice(["vector", "dict"]))
     # --- learn scheduling classes of learn_step vs num_envs that the integer divisions treat differently:
     #     num_envs < learn_step < 2*num_envs (learn_step // num_envs == 1), learn_step < num_envs not dividing it,
     #     learn_step an exact multiple, learn_step > 2*num_envs not a multiple
@@ -1013,6 +1055,11 @@ def gen_cases(rng, tier: str) -> list[dict]:
         else:
             kw.update(episode_steps=rng.choice([4, 6, 10]), evo_steps=rng.choice([8, 10, 20]), max_steps=rng.choice([20, 30, 40]),
                       learn_step=rng.choice([1, 2, 3]), eval_steps=3)
+        kw["ep_mode"] = rng.choice(["stagger", "stagger", "reverse", "last-only", "middle-only", "first-only"])
+        kw["ep_len"] = rng.choice([2, 3, 5, 7])
+        kw["via"] = rng.choice(["build", "create_population"])
+        if loop == "on" and kw.get("kind") == "box":
+            kw["squash"] = rng.random() < 0.5
         if rng.random() < 0.5:
             kw.update(bs_spread=rng.choice([0, 1, 3]), lr_spread=rng.choice([0.0, 0.5, 2.0]))
             if loop in ("off", "maoff", "bandit"):
@@ -1146,6 +1193,11 @@ def tags_of(res: dict) -> list[str]:
             t.append("real-mutation-drawn")
     if any(len({s["after"] for s in g["slots"]}) > 1 for g in res.get("gens", [])):
         t.append("step-counters-diverged")
+    t.append(f"population-via-{c['via']}")
+    if ne and ne > 1:
+        t.append(f"episodes-end-{c['ep_mode']}")
+    if c.get("squash") and c["algo"] == "PPO":
+        t.append("squash_output")
     if c.get("budgets"):
         t.append("called-again-on-returned-population")
         if any(not sg["gens"] for sg in res.get("segs", [])[1:]):
